@@ -1,6 +1,7 @@
 package checks
 
 import (
+	"context"
 	"fmt"
 	"strings"
 	"sync"
@@ -8,6 +9,7 @@ import (
 	"time"
 
 	"github.com/arloliu/go-secs/v2/hsms"
+	"github.com/arloliu/go-secs/v2/secs2"
 
 	"verif/fw"
 	"verif/peer"
@@ -42,6 +44,112 @@ func c05E2E(env *fw.Env) {
 		}
 		c05E2EOne(env, i)
 	}
+	// a receive goroutine that outlives its generation (wedged in a data handler past the close
+	// timeout) must not take the NEXT generation down when it finally unwinds
+	base := int64(1_000_000)
+	for k := int64(0); k < int64(env.Pick(8, 80)); k++ {
+		if !env.Mine(k) || !env.Want(base+k) {
+			continue
+		}
+		c05Straggler(env, base+k, k%2 == 0, []string{"write-error", "close-reopen"}[(k/2)%2])
+	}
+}
+
+// c05Straggler: a data handler blocks generation N's receive goroutine; generation N ends by another path
+// (a write error after the peer reset, or Close) and its bounded teardown abandons the wedged goroutine; the
+// connection comes back (generation N+1, Selected); only then does the handler return. From that moment on
+// generation N+1 must stay Selected and no state notification may be delivered.
+func c05Straggler(env *fw.Env, i int64, active bool, how string) {
+	cs := c05E2ECase{Index: i, Active: active, Script: []string{"wedged-handler-straggler", how}}
+	env.Begin(i, cs)
+	env.Sample(cs)
+	env.Eval(fw.HashStr("straggler", fmt.Sprint(active, how)), true)
+	rg, err := newRig(rigOpts{Active: active, CloseTimeout: 300 * time.Millisecond, T5: 30 * time.Millisecond, BackoffInit: 5 * time.Millisecond, WriteTimeout: 300 * time.Millisecond})
+	if err != nil {
+		env.Discard()
+		return
+	}
+	release := make(chan struct{})
+	var wedged atomic.Bool
+	rg.Conn.AddDataMessageHandler(func(m *hsms.DataMessage, _ hsms.SECS2Endpoint) {
+		if m.Stream() == 99 && wedged.CompareAndSwap(false, true) {
+			<-release
+		}
+	})
+	var nmu sync.Mutex
+	var notifs []c05Notif
+	rg.Conn.AddConnStateChangeHandler(func(prev, next hsms.ConnState) {
+		nmu.Lock()
+		notifs = append(notifs, c05Notif{peer.Now(), prev, next})
+		nmu.Unlock()
+	})
+	released := false
+	defer func() {
+		if !released {
+			close(release)
+		}
+		_ = rg.Shutdown()
+	}()
+	if err := rg.Open(); err != nil {
+		env.Violate("e2e-open-failed", err.Error(), cs)
+		return
+	}
+	pc, _, err := rg.NextGenRetry(nil, 5)
+	if err != nil {
+		env.Discard()
+		return
+	}
+	defer pc.Close()
+	_ = pc.Send(peer.Data(99, 1, false, 0x1234, 0x57A66000, nil)) // wedges the receive goroutine in the handler
+	if !waitFor(5*time.Second, func() bool { return wedged.Load() }) {
+		env.Discard()
+		return
+	}
+	switch how {
+	case "write-error":
+		pc.Reset()
+		// the wedged receive goroutine cannot notice the reset; a send does
+		waitFor(10*time.Second, func() bool {
+			ctx, cancel := context.WithTimeout(context.Background(), time.Second)
+			_, _ = rg.Conn.SendDataMessage(ctx, 1, 1, false, secs2.A("probe"))
+			cancel()
+
+			return rg.Conn.State() != hsms.SelectedState
+		})
+	case "close-reopen":
+		_ = rg.Conn.Close() // returns ErrCloseTimeout after 300 ms: the receive goroutine is abandoned
+		if err := rg.Open(); err != nil {
+			env.Violate("e2e-reopen-failed", err.Error(), cs)
+			return
+		}
+	}
+	pc2, _, err := rg.NextGenRetry(nil, 6)
+	if err != nil {
+		env.Note("straggler %d: next generation: %v", i, err)
+		env.Discard()
+		return
+	}
+	defer pc2.Close()
+	if _, err := pc2.Barrier(5 * time.Second); err != nil {
+		env.Discard()
+		return
+	}
+	nmu.Lock()
+	before := len(notifs)
+	nmu.Unlock()
+	released = true
+	close(release) // generation N's receive goroutine now unwinds (its socket was closed long ago)
+	time.Sleep(600 * time.Millisecond)
+	nmu.Lock()
+	after := append([]c05Notif(nil), notifs[before:]...)
+	nmu.Unlock()
+	_, berr := pc2.Barrier(5 * time.Second)
+	if st := rg.Conn.State(); st != hsms.SelectedState || len(after) != 0 || berr != nil {
+		env.Violate("e2e-straggler-disturbs-next-generation", fmt.Sprintf("generation N's receive goroutine (wedged in a handler, abandoned by the bounded teardown, %s) unwound while generation N+1 was Selected: State()=%v, notifications since%s, barrier on N+1: %v",
+			how, st, c05NotifString(after), berr), cs)
+		return
+	}
+	env.Event("e2e_straggler_cases_clean", 1)
 }
 
 //nolint:gocyclo,cyclop // one e2e history and its monitors
